@@ -25,7 +25,7 @@ PROP = "C04"
 TITLE = "Transforming a 1D grid is a faithful change of variables"
 REQUIRED_HOOKS = ["BaseTransform.transform_1d_grid", "decided:weights-magnitude", "decided:weights-sign", "decided:domain-image", "decided:sum-identity", "decided:points-dtype", "decided:sequence-repeat", "decided:construction"]
 FAM_TF = [c03.CLS[k] for k in c03.KINDS] + ["InverseRTransform"]
-REQUIRED_FAMILIES = FAM_TF + ["chain", "subdomain", "gl-linear-exactness", "exp-integral", "incidental", "pinned", "sequence", "dtype-grid", "boundary", "large-n", "construction", "clones", "option-values", "warnings-as-errors"]
+REQUIRED_FAMILIES = FAM_TF + ["chain", "subdomain", "gl-linear-exactness", "exp-integral", "incidental", "pinned", "sequence", "dtype-grid", "boundary", "large-n", "construction", "clones", "option-values", "warnings-as-errors", "nested"]
 BUDGET = {"quick": 900, "thorough": 7200}  # per-worker seconds; expected on 16 idle cores: quick ~10 s, thorough ~3-4 min
 MAX_DISCARD_FRACTION = 0.02
 TOL_EXPINT = 1e-3  # |beta*I - 1|; largest quadrature error seen (GL n=60/120, beta*R in [2,4]) 2.8e-6; the sign defect gives 2
@@ -177,6 +177,28 @@ def cases(tier, seed):
         out.append(("construction", {"tf": {"kind": kind, **p}}, 1.0))
     for q in sorted(sig.QUADRATURE_ORDER):
         out.append(("construction", {"quad": q}, 1.0))
+    # (g) InverseRTransform nested to depth 2 (over every base) and 3 (over the bases whose codomain can contain the rule's domain),
+    #     as ordinary transform objects: rules incl. closed ones, sequences on one object, exactness transport
+    j = 0
+    for dom, kinds, invk, rules in (("m11", KINDS_M11, INV_M11, ("GaussLegendre", "GaussChebyshev", "ClenshawCurtis", "MidPoint", "TanhSinh", "FejerSecond")), ("0inf", KINDS_0INF, INV_0INF, ("UniformInteger", "GaussLaguerre", "ExpSinh", "SingleExp"))):
+        for inv, kk in ((False, kinds), (True, invk)):
+            for kind in kk:
+                variants = [p for k, p in _tf_grid([kind])]
+                if inv:
+                    variants = [p for p in variants if (kind in INV_M11 and p.get("rmin") in (0.0, 1.0)) or (kind in INV_0INF and p.get("rmin", 0.0) == 0.0 and p.get("v", 0) < 2)]
+                nv = min(len(variants), 3 if tier == "quick" else 24)
+                for t in range(nv):
+                    j += 1
+                    p = variants[(seed * 5 + j * 7 + t * max(1, len(variants) // nv)) % len(variants)]
+                    for q in range(2 if tier == "quick" else 3):
+                        rule = rules[(j + q + seed) % len(rules)]
+                        n = NS_ALL[(5 * j + 11 * q + seed) % len(NS_ALL)]
+                        out.append(("nested", {"rule": rule, "n": n, "tf": {"kind": kind, **p, "nest": True}, **({"inv": True} if inv else {})}, 1.5))
+                    if t == 0:
+                        out.append(("sequence", {"dom": dom, "n": (5, 9, 21)[(j + seed) % 3], "tf": {"kind": kind, **p, **({"bmode": "explicit"} if "bmode" in p else {}), "nest": True}, **({"inv": True} if inv else {})}, 3.0))
+    for n in (2, 5, 16, 30):
+        out.append(("gl-linear-exactness", {"n": n, "k": 0, "nest": 2}, 1.0))
+        out.append(("gl-linear-exactness", {"n": n, "k": 1, "nest": 4}, 1.0))
     # (f) clones of the transform (copy / deepcopy / pickle; before and after b was learned), equal-but-not-identical flag values,
     #     warnings turned into errors: the transformed grid is the same
     for kind, p in c03.construction_sets():
@@ -279,6 +301,12 @@ def build_tf(ctx, tfp, inv, rule_grid):
             p["clone"] = roundtrip.pick(rng)[0]  # the object went through copy / deepcopy / pickle
     I = c03.build(p, rng)
     tf = rt.InverseRTransform(I.tf) if inv else I.tf
+    if p.get("nest"):
+        # transforms built from transforms: two more inversions (depth 2 behaves like T, depth 3 like InverseRTransform(T))
+        tf = rt.InverseRTransform(rt.InverseRTransform(tf))
+        if rng.random() < 0.3:
+            tf = roundtrip.clone(tf, roundtrip.pick(rng)[0])
+        ctx.count("nested-wrapper-objects:depth-" + ("3" if inv else "2"))
     return I, tf
 
 
@@ -298,6 +326,23 @@ def admissible(I, inv, tf, g):
             return False
     if "hi" in ends and np.any(x >= hi):
         return False
+    if type(tf).__name__ == "InverseRTransform" and type(getattr(tf, "_tfm", None)).__name__ == "InverseRTransform":
+        # nested wrappers evaluate 1 / (1 / T'(x_base)): a node whose base point has T' = 0 (closed rule at x = -1 for k, m > 1, or an
+        # image that collapsed onto rmin) or T' = inf hits the documented ZeroDivisionError of the inner wrapper (T itself gives weight 0)
+        with np.errstate(all="ignore"):
+            xb = np.asarray(I.tf.inverse(x), dtype=float) if inv else np.asarray(x, dtype=float)
+            d = np.asarray(I.tf.deriv(xb), dtype=float)
+            # the chain goes through r = T(x_base) and back: where r - rmin is below the resolution of r the way back lands ON the end
+            d2 = np.asarray(I.tf.deriv(np.asarray(I.tf.inverse(np.asarray(I.tf.transform(xb), dtype=float)), dtype=float)), dtype=float)
+        if np.any(d == 0) or not np.all(np.isfinite(d)) or np.any(d2 == 0) or not np.all(np.isfinite(d2)):
+            return False
+    if inv and type(getattr(tf, "_tfm", None)).__name__ == "InverseRTransform":
+        # depth-3 wrapper: a node whose pre-image T.inverse(r) rounds onto an end point of T's domain makes the inner wrapper's
+        # derivative 1/T' = 1/inf = 0, and the next level raises the documented ZeroDivisionError (depth 1 gives a zero weight)
+        with np.errstate(all="ignore"):
+            img = np.asarray(tf.transform(x), dtype=float)
+        if np.any(img <= min(tf.codomain)) or np.any(img >= max(tf.codomain)):
+            return False
     return bool(np.all(np.isfinite(x)) and np.all(np.isfinite(g.weights)))
 
 
@@ -398,7 +443,7 @@ def run_case(ctx, family, params):
     import grid.rtransform as rt
     from grid.basegrid import OneDGrid
 
-    if family in FAM_TF or family == "large-n":
+    if family in FAM_TF or family in ("large-n", "nested"):
         g = make_rule(params["rule"], params["n"], ctx.rng)
         inv = bool(params.get("inv"))
         I, tf = build_tf(ctx, params["tf"], inv, g)
@@ -461,6 +506,8 @@ def run_case(ctx, family, params):
         b = a + float(10 ** rng.uniform(-1, 2))
         g = og.GaussLegendre(n)
         tf = rt.LinearFiniteRTransform(a, b)
+        for _ in range(params.get("nest", 0)):
+            tf = rt.InverseRTransform(tf)  # an even number of inversions is the linear map itself: exactness is transported
         new, o = transform_and_check(ctx, tf, g, "GaussLegendre")
         if new is None:
             return
